@@ -211,7 +211,7 @@ class ExeFSReader(TypeReaderBase):
     icon: 'Optional[SMDH]'
     """The icon info, if one is in the ExeFS."""
 
-    def __init__(self, fp: 'FilePathOrObject', *, fs: 'Optional[FS]' = None, closefd: bool = True,
+    def __init__(self, fp: 'FilePathOrObject', *, fs: 'Optional[FS]' = None, closefd: 'Optional[bool]' = None,
                  _load_icon: bool = True):
         super().__init__(fp, fs=fs, closefd=closefd)
 
